@@ -23,7 +23,7 @@ from puresnmp.adt import (
 )
 from puresnmp.credentials import V3, Credentials
 from puresnmp.exc import SnmpError
-from puresnmp.pdu import GetRequest, PDUContent
+from puresnmp.pdu import GetRequest, PDUContent, Report
 from puresnmp.plugins.security import SecurityModel
 from puresnmp.transport import MESSAGE_MAX_SIZE
 from puresnmp.util import get_request_id, localise_key, validate_response_id
@@ -312,6 +312,15 @@ def verify_authentication(
     """
 
     if not message.header.flags.auth:
+        if credentials.auth is not None and not (
+            isinstance(message, PlainMessage)
+            and isinstance(message.scoped_pdu, ScopedPDU)
+            and isinstance(message.scoped_pdu.data, Report)
+        ):
+            raise AuthenticationError(
+                "Received an unauthenticated message for a user which "
+                "requires authentication!"
+            )
         return
 
     if not credentials.auth:
@@ -556,6 +565,8 @@ def validate_usm_message(message: PlainMessage) -> None:
         if varbind.oid in errors:
             msg = errors[varbind.oid]
             raise SnmpError(f"Error response from remote device: {msg}")
+    if isinstance(message.scoped_pdu.data, Report):
+        raise SnmpError("Unexpected report received from remote device")
 
 
 def create() -> UserSecurityModel:
